@@ -166,6 +166,13 @@ def gen_config(rng, index):
     hi_los = [dict(mean=0.1, sigma=0.1, **({"xi": 0.2} if q == "GEV" else {})) for q in losd]
     if cosmology == "FLCDM" and rng.random() < 0.3:
         fixed_c["om"] = 0.31; lo_c.pop("om"); hi_c.pop("om")
+        if rng.random() < 0.6 and "gamma_ppn" not in lo_c:      # EVERY cosmological parameter held fixed: the cosmology block samples nothing
+            fixed_c["h0"] = 71.3; lo_c.pop("h0"); hi_c.pop("h0")
+    all_fixed = (index % 8 == 4)      # every eighth scenario (an FLCDM one): nothing cosmological is sampled, tabulated distances are passed in some calls
+    if all_fixed:
+        km.pop("ppn_sampling", None); lo_c.pop("gamma_ppn", None); hi_c.pop("gamma_ppn", None)
+        fixed_c.update(om=0.31, h0=71.3)
+        for k in ("om", "h0"): lo_c.pop(k, None); hi_c.pop(k, None)
     # lenses: every type once (shuffled), extra random ones
     order = [str(t) for t in rng.permutation(TYPES)]
     nl = int(rng.integers(6, 15))
@@ -232,7 +239,7 @@ def gen_config(rng, index):
         from astropy.cosmology import FlatLambdaCDM
         extra["cosmo_fixed"] = FlatLambdaCDM(H0=float(rng.uniform(60, 80)), Om0=0.3)
     tab = None
-    if rng.random() < 0.4:
+    if rng.random() < 0.4 or all_fixed:
         from astropy.cosmology import FlatLambdaCDM
         zt = np.linspace(0, 3.2, 120)
         tab = dict(ang_diameter_distances=FlatLambdaCDM(H0=72.0, Om0=0.28).angular_diameter_distance(zt).value, redshifts=zt)
